@@ -52,6 +52,12 @@ impl IntBytes for u32 {
     #[verifier::external_body] fn le_bytes(&self) -> (r: Vec<u8>) { self.to_le_bytes().to_vec() }
     #[verifier::external_body] fn be_bytes(&self) -> (r: Vec<u8>) { self.to_be_bytes().to_vec() }
 }
+impl IntBytes for u64 {
+    open spec fn val(&self) -> nat { *self as nat }
+    open spec fn width(&self) -> nat { 8 }
+    #[verifier::external_body] fn le_bytes(&self) -> (r: Vec<u8>) { self.to_le_bytes().to_vec() }
+    #[verifier::external_body] fn be_bytes(&self) -> (r: Vec<u8>) { self.to_be_bytes().to_vec() }
+}
 impl IntBytes for u16 {
     open spec fn val(&self) -> nat { *self as nat }
     open spec fn width(&self) -> nat { 2 }
@@ -283,14 +289,119 @@ pub fn aes256_cbc_zero_iv_decrypt(key: &Vec<u8>, data: &[u8]) -> (r: Vec<u8>)
     requires key@.len() == 32
     ensures r@ == aes256_cbc0_dec(key@, data@)
 { unimplemented!() }
-/// Algorithm 13 as a predicate on the candidate file key (its own contract is stated where it is verified)
-pub uninterp spec fn perms_valid(a: &PasswordAlgorithm, file_key: Seq<u8>) -> bool;
-impl PasswordAlgorithm {
-    #[verifier::external_body]
-    pub fn validate_permissions(&self, file_encryption_key: &[u8]) -> (r: core::result::Result<(), DecryptionError>)
-        ensures r is Ok <==> perms_valid(self, file_encryption_key@)
-    { unimplemented!() }
+// ---- Algorithms 10 and 13: the Perms entry ---------------------------------------------------------------------------
+/// AES-256 on one 16-byte block, ECB (ASSUMED: the aes / ecb crates compute it, and decryption undoes encryption)
+pub uninterp spec fn aes256_ecb_enc(key: Seq<u8>, block: Seq<u8>) -> Seq<u8>;
+pub uninterp spec fn aes256_ecb_dec(key: Seq<u8>, block: Seq<u8>) -> Seq<u8>;
+#[verifier::external_body]
+pub proof fn axiom_aes256_ecb(key: Seq<u8>, block: Seq<u8>)
+    requires key.len() == 32, block.len() == 16
+    ensures aes256_ecb_enc(key, block).len() == 16, aes256_ecb_dec(key, block).len() == 16,
+            aes256_ecb_dec(key, aes256_ecb_enc(key, block)) == block
+{ }
+#[verifier::external_body]
+pub fn aes256_ecb_encrypt_block(key: &[u8], block: &mut [u8; 16])
+    requires key@.len() == 32      // `key.copy_from_slice(file_encryption_key)` panics on any other length
+    ensures final(block)@ == aes256_ecb_enc(key@, old(block)@)
+{ unimplemented!() }
+#[verifier::external_body]
+pub fn aes256_ecb_decrypt_block(key: &[u8], block: &mut [u8; 16])
+    requires key@.len() == 32
+    ensures final(block)@ == aes256_ecb_dec(key@, old(block)@)
+{ unimplemented!() }
+/// `Aes256EbcEnc::new(..).encrypt_block_mut(bytes.into())`: `[u8; 16]` is Copy, `.into()` makes a GenericArray by value, the
+/// temporary is encrypted and dropped
+#[verifier::external_body]
+pub fn aes256_ecb_encrypt_copy(key: &[u8], block: &[u8; 16]) requires key@.len() == 32 { unimplemented!() }
+#[verifier::external_body]
+pub fn aes256_ecb_decrypt_copy(key: &[u8], block: &[u8; 16]) requires key@.len() == 32 { unimplemented!() }
+#[verifier::external_body]
+pub fn copy_all16(dst: &mut [u8; 16], src: &[u8])
+    requires src@.len() == 16      // copy_from_slice panics on a length mismatch
+    ensures final(dst)@ == src@
+{ dst.copy_from_slice(src) }
+#[verifier::external_body]
+pub fn copy_into16(dst: &mut [u8; 16], from: usize, n: usize, src: &[u8])
+    requires from + n <= 16, src@.len() == n
+    ensures final(dst)@ == old(dst)@.subrange(0, from as int) + src@ + old(dst)@.subrange(from + n, 16)
+{ dst[from..][..n].copy_from_slice(src) }
+#[verifier::external_body]
+pub fn fill_random16(dst: &mut [u8; 16], from: usize, n: usize)
+    requires from + n <= 16
+    ensures final(dst)@.subrange(0, from as int) == old(dst)@.subrange(0, from as int), final(dst)@.subrange(from + n, 16) == old(dst)@.subrange(from + n, 16)
+{ unimplemented!() }
+#[verifier::external_body]
+pub fn slice_ne(a: &[u8], b: &[u8]) -> (r: bool) ensures r == (a@ != b@) { a != b }
+/// the byte that records EncryptMetadata: ASCII T or F
+pub open spec fn em_byte(em: bool) -> u8 { if em { 0x54u8 } else { 0x46u8 } }
+/// Algorithm 10 steps a-d: bytes 0-11 of the block before encryption (bytes 12-15 are random)
+pub open spec fn perms_head(p: nat, em: bool) -> Seq<u8> { le(p, 8) + seq![em_byte(em)] + seq![0x61u8, 0x64u8, 0x62u8] }
+/// Algorithm 10: Perms is the AES-256-ECB encryption under the file key of a block that starts with perms_head
+pub open spec fn alg10_ok(a: &PasswordAlgorithm, file_key: Seq<u8>, perms: Seq<u8>) -> bool {
+    exists|block: Seq<u8>| #![auto] block.len() == 16 && block.subrange(0, 12) == perms_head(p_word(a), a.encrypt_metadata) && perms == aes256_ecb_enc(file_key, block)
 }
+pub open spec fn p_word(a: &PasswordAlgorithm) -> nat { (a.permissions.flags | 0xFFFF_FFFF_FFFF_F0C0u64) as nat }
+/// Algorithm 13: decrypt Perms with the candidate file key; bytes 9-11 are "adb", bytes 0-3 the low-order 32 bits of P, byte 8 T / F
+pub open spec fn perms_valid(a: &PasswordAlgorithm, file_key: Seq<u8>) -> bool {
+    let b = aes256_ecb_dec(file_key, a.permission_encrypted@);
+    b.subrange(9, 12) == seq![0x61u8, 0x64u8, 0x62u8] && b.subrange(0, 4) == le(p_word(a), 8).subrange(0, 4) && b[8] == em_byte(a.encrypt_metadata)
+}
+/// what Algorithm 10 writes, Algorithm 13 accepts (for the same file key, P and EncryptMetadata)
+pub proof fn lemma_alg13_accepts_alg10(a: &PasswordAlgorithm, file_key: Seq<u8>)
+    requires file_key.len() == 32, alg10_ok(a, file_key, a.permission_encrypted@)
+    ensures perms_valid(a, file_key)
+{
+    let block = choose|block: Seq<u8>| #![auto] block.len() == 16 && block.subrange(0, 12) == perms_head(p_word(a), a.encrypt_metadata) && a.permission_encrypted@ == aes256_ecb_enc(file_key, block);
+    axiom_aes256_ecb(file_key, block);
+    let h = perms_head(p_word(a), a.encrypt_metadata);
+    assert(h.len() == 12);
+    assert(block.subrange(9, 12) =~= block.subrange(0, 12).subrange(9, 12));
+    assert(h.subrange(9, 12) =~= seq![0x61u8, 0x64u8, 0x62u8]);
+    assert(block.subrange(0, 4) =~= block.subrange(0, 12).subrange(0, 4));
+    assert(h.subrange(0, 4) =~= le(p_word(a), 8).subrange(0, 4));
+    assert(block[8] == block.subrange(0, 12)[8]);
+    assert(h[8] == em_byte(a.encrypt_metadata));
+}
+// ---- Algorithms 8 and 9: U, UE, O, OE of revisions 5 and 6 ------------------------------------------------------------
+/// AES-256, CBC, no padding, initialisation vector of zero, encryption (ASSUMED like its inverse above)
+pub uninterp spec fn aes256_cbc0_enc(key: Seq<u8>, data: Seq<u8>) -> Seq<u8>;
+#[verifier::external_body]
+pub proof fn axiom_aes256_cbc0(key: Seq<u8>, data: Seq<u8>)
+    requires key.len() == 32, data.len() % 16 == 0
+    ensures aes256_cbc0_enc(key, data).len() == data.len(), aes256_cbc0_dec(key, data).len() == data.len(),
+            aes256_cbc0_dec(key, aes256_cbc0_enc(key, data)) == data
+{ }
+#[verifier::external_body]
+pub fn aes256_cbc_zero_iv_encrypt(key: &Vec<u8>, data: &[u8]) -> (r: Vec<u8>)
+    requires key@.len() == 32,            // `key.copy_from_slice(&hash)` panics on any other length
+             data@.len() % 16 == 0        // chunks_exact_mut(16) would leave a remainder as it is
+    ensures r@ == aes256_cbc0_enc(key@, data@)
+{ unimplemented!() }
+#[verifier::external_body]
+pub fn fill_random48_from(dst: &mut [u8; 48], from: usize)
+    requires from <= 48
+    ensures final(dst)@.subrange(0, from as int) == old(dst)@.subrange(0, from as int)
+{ unimplemented!() }
+#[verifier::external_body]
+pub fn copy_into48(dst: &mut [u8; 48], from: usize, to: usize, src: &[u8])
+    requires from <= to <= 48, src@.len() == to - from
+    ensures final(dst)@ == old(dst)@.subrange(0, from as int) + src@ + old(dst)@.subrange(to as int, 48)
+{ dst[from..to].copy_from_slice(src) }
+/// Algorithm 8: U = hash(password ++ validation salt) ++ validation salt ++ key salt (the salts are any 16 bytes),
+/// UE = the file key encrypted under hash(password ++ key salt)
+pub open spec fn alg8_ok(rev: int, file_key: Seq<u8>, pw: Seq<u8>, u: Seq<u8>, ue: Seq<u8>) -> bool {
+    u.len() == 48 && u.subrange(0, 32) == hash2b(rev, pw127(pw), u.subrange(32, 40), None)
+    && ue == aes256_cbc0_enc(hash2b(rev, pw127(pw), u.subrange(40, 48), None), file_key)
+}
+/// Algorithm 9: the same for the owner password, every hash also over the 48-byte U
+pub open spec fn alg9_ok(rev: int, file_key: Seq<u8>, pw: Seq<u8>, u: Seq<u8>, o: Seq<u8>, oe: Seq<u8>) -> bool {
+    o.len() == 48 && o.subrange(0, 32) == hash2b(rev, pw127(pw), o.subrange(32, 40), Some(u))
+    && oe == aes256_cbc0_enc(hash2b(rev, pw127(pw), o.subrange(40, 48), Some(u)), file_key)
+}
+/// ASSUMED with hash2b: Algorithm 2.B yields 32 bytes
+#[verifier::external_body]
+pub proof fn axiom_hash2b_len(rev: int, pw: Seq<u8>, salt: Seq<u8>, ukey: Option<Seq<u8>>) ensures hash2b(rev, pw, salt, ukey).len() == 32 { }
+
 pub open spec fn alg2a(a: &PasswordAlgorithm, pw: Seq<u8>) -> Option<Seq<u8>> {
     let p = pw127(pw);
     let rev = a.revision as int;
@@ -302,4 +413,27 @@ pub open spec fn alg2a(a: &PasswordAlgorithm, pw: Seq<u8>) -> Option<Seq<u8>> {
         let k = aes256_cbc0_dec(hash2b(rev, p, a.user_value@.subrange(40, 48), None), a.user_encrypted@);
         if perms_valid(a, k) { Some(k) } else { None }
     } else { None }
+}
+
+// ---- what Algorithms 8, 9 and 10 write, Algorithm 2.A opens (given that AES decryption undoes AES encryption) ------------
+pub proof fn theorem_r6_owner_password_opens(a: &PasswordAlgorithm, file_key: Seq<u8>, owner_pw: Seq<u8>)
+    requires file_key.len() == 32,
+        alg9_ok(a.revision as int, file_key, owner_pw, a.user_value@, a.owner_value@, a.owner_encrypted@),
+    ensures alg12_ok(a, owner_pw), alg2a(a, owner_pw) == Some(file_key),
+{
+    let k = hash2b(a.revision as int, pw127(owner_pw), a.owner_value@.subrange(40, 48), Some(a.user_value@));
+    axiom_hash2b_len(a.revision as int, pw127(owner_pw), a.owner_value@.subrange(40, 48), Some(a.user_value@));
+    axiom_aes256_cbc0(k, file_key);
+}
+pub proof fn theorem_r6_user_password_opens(a: &PasswordAlgorithm, file_key: Seq<u8>, user_pw: Seq<u8>)
+    requires file_key.len() == 32,
+        alg8_ok(a.revision as int, file_key, user_pw, a.user_value@, a.user_encrypted@),
+        alg10_ok(a, file_key, a.permission_encrypted@),
+        !alg12_ok(a, user_pw),      // a password that also passes as the owner password is handled by the owner branch
+    ensures alg11_ok(a, user_pw), alg2a(a, user_pw) == Some(file_key),
+{
+    let k = hash2b(a.revision as int, pw127(user_pw), a.user_value@.subrange(40, 48), None);
+    axiom_hash2b_len(a.revision as int, pw127(user_pw), a.user_value@.subrange(40, 48), None);
+    axiom_aes256_cbc0(k, file_key);
+    lemma_alg13_accepts_alg10(a, file_key);
 }
